@@ -9,7 +9,7 @@ st = sh("git -C %s status --short --untracked-files=all" % V).split("\n")
 for l in st:
     if not l.strip(): continue
     code, path = l[:2], l[3:].strip()
-    if path.startswith("evidence/") or path.endswith("Cargo.toml") and "harness/" in path and code != "??": continue
+    if path.startswith("evidence/") or path in ("harness-gui/Cargo.toml", "harness-gui/src/mstsc_mod.rs") and code != "??" or path.endswith("Cargo.toml") and "harness/" in path and code != "??": continue
     src, dst = os.path.join(V, path), os.path.join("/verif", path)
     if code == "??":
         os.makedirs(os.path.dirname(dst), exist_ok=True)
